@@ -9,10 +9,13 @@
    Slices.  Every slice expression on this path is bounded by the *length* of
    the option region: the loop checks l <= len(b[i:]) before b[i:i+l], and each
    unmarshal only indexes below l once l >= 8.  Capacity is therefore never
-   consulted and plain byte lists (firstn/skipn) are a faithful model.  The only
-   run-time faults are those of a zero-length option (l = 0), modelled as
-   [Panic] (index on an empty slice) or as a loop that does not advance
-   ([Fuel]); DESIGN section 11 #12, repaired by the HANDLERS cluster. *)
+   consulted and plain byte lists (firstn/skipn) are a faithful model.  An option of
+   length zero is an error of the whole option block (repaired f37ae93, HANDLERS cluster; before:
+   panic or endless loop); the [Panic] results on an empty option slice below are unreachable from
+   [parse_opts] and kept only so that each unmarshal is total on its own.
+   Every decoded value is an owned copy (CopyMAC, CopyIP, AddrFromSlice, make+copy, string):
+   nothing in the result refers to the packet buffer; the harness checks exactly that by
+   overwriting the one receive buffer after every packet. *)
 From PV Require Export Base.Prelude.
 Open Scope N_scope.
 
